@@ -167,7 +167,10 @@ def mountOp (root : String) (src tgt fst : String) (fl : Val) : List Op :=
   let ro := isFlag fl "syscall.MS_RDONLY"
   if isFlag fl "syscall.MS_REMOUNT" then (if tgt == "/" then [.remountRootRo] else [.remount (comps tgt) bind ro])
   else if tgt == root then [.mountRoot]
-  else if src == "none" then []                       -- make the old tree private: no effect on what is visible
+  else if src == "none" then
+    -- propagation change of the whole tree: only "recursively private" cuts the namespace off from the host's events
+    (if tgt == "/" && Val.beq fl (.int (Gen.Consts.syscall_MS_REC + Gen.Consts.syscall_MS_PRIVATE)) then [.makePrivate]
+     else [.mount (comps tgt) (.host "?propagation") false false])
   else if src == "/dev/null" && Val.beq fl ((cg "syscall.MS_BIND").getD .nil) then [.mount (comps tgt) .devnull true ro]   -- maskPath's bind (plain MS_BIND)
   else if fst == "tmpfs" && ro && (tgt.toList.head? == some '/') then [.mount (comps tgt) .emptyTmpfs false true]
   else [.mount (comps tgt) (fsOf src fst bind) bind ro]
